@@ -44,7 +44,8 @@ AnyLeaf(env, T, v, P(_, _)) ==
   LET ls == Leaves(env, T, v) IN \E j \in 1..Len(ls) : P(ls[j][1], ls[j][2])
 
 RtClasses == <<"OidArc2Ge40", "RealMinusZero", "NamedBitsTrimmedBelowSize", "AbsentOptionalExtensibleChoice",
-              "PerSizeExtensionOutsideRoot", "GroupOnlyNullPresent">>
+              "PerSizeExtensionOutsideRoot", "GroupOnlyNullPresent", "OerAdditionGroup", "OerFixedSizeWideString",
+              "DefaultNullMember", "XerRealText">>
 
 RECURSIVE AnyNode(_, _, _, _)
 \* does P hold at some SEQUENCE/SET node <<type, value>> inside v : T ?
@@ -81,6 +82,20 @@ RtClassHolds(name, env, T, v, codec) ==
                     /\ \E h \in 1..Len(Sq.adds[a].ms) : x[Sq.adds[a].ms[h].n].p
                     /\ \A h \in 1..Len(Sq.adds[a].ms) :
                           x[Sq.adds[a].ms[h].n].p => Base(env, Sq.adds[a].ms[h].t).k = "NULL"
+    [] name = "OerAdditionGroup" ->
+         /\ codec = "oer"
+         /\ LET ns == SeqNodes(env, T, v) IN
+              \E j \in 1..Len(ns) : \E a \in 1..Len(ns[j][1].adds) : ns[j][1].adds[a].g
+    [] name = "OerFixedSizeWideString" ->
+         /\ codec = "oer"
+         /\ AnyLeaf(env, T, v, LAMBDA t, x : t.k = "STR" /\ OerFixedSize(t.sz) /\ OerCharWidth(t.st) # 1)
+    [] name = "DefaultNullMember" ->
+         LET ns == SeqNodes(env, T, v) IN
+           \E j \in 1..Len(ns) :
+              LET ms == AllMembers(ns[j][1]) IN
+              \E h \in 1..Len(ms) : ms[h].q = "D" /\ Base(env, ms[h].t).k = "NULL"
+    [] name = "XerRealText" ->
+         codec = "xer" /\ AnyLeaf(env, T, v, LAMBDA t, x : t.k = "REAL" /\ x.c = "F")
     [] name = "AbsentOptionalExtensibleChoice" ->
          /\ codec \in {"ber", "der"}
          /\ LET ns == SeqNodes(env, T, v) IN
@@ -90,6 +105,37 @@ RtClassHolds(name, env, T, v, codec) ==
                     /\ ~x[ms[h].n].p
                     /\ IsUntaggedChoice(env, ComponentType(env, S, h))
                     /\ Base(env, ms[h].t).ext
+
+\* input classes of known version-interoperability findings (C07); filled as they are confirmed
+RECURSIVE UnknownInList(_, _, _, _, _)
+\* does v : T2 hold an ENUMERATED item / CHOICE alternative unknown to T1 directly as an
+\* element of a SEQUENCE OF / SET OF (inList = the enclosing node is a list)?
+UnknownInList(e, T1, T2, v, inList) ==
+  CASE T1.k = "REF" -> UnknownInList(e, e.types[T1.name], e.types[T2.name], v, inList)
+    [] T1.k \in {"SEQ", "SET"} ->
+         LET ms1 == AllMembers(T1)  ms2 == AllMembers(T2) IN
+         \E j \in 1..Len(ms1) :
+            /\ v[ms1[j].n].p
+            /\ UnknownInList(e, ms1[j].t, ms2[MemberIndex(ms2, ms1[j].n)].t, v[ms1[j].n].v, FALSE)
+    [] T1.k = "CHOICE" ->
+         LET a1 == AllAlts(T1)  a2 == AllAlts(T2) IN
+         IF HasMember(a1, v.a)
+         THEN UnknownInList(e, a1[MemberIndex(a1, v.a)].t, a2[MemberIndex(a2, v.a)].t, v.v, FALSE)
+         ELSE inList
+    [] T1.k = "ENUM" -> inList /\ ~HasMember(AllAlts(T1), v)
+    [] T1.k \in {"SEQOF", "SETOF"} -> \E j \in 1..Len(v) : UnknownInList(e, T1.e, T2.e, v[j], TRUE)
+    [] OTHER -> FALSE
+
+ExtClasses == <<"XerUnknownItemInList">>
+ExtClassHolds(name, env1, env2, T1, T2, v, codec) ==
+  CASE name = "XerUnknownItemInList" -> codec = "xer" /\ UnknownInList(env2, T1, T2, v, FALSE)
+ExtApplicable(env1, env2, T1, T2, v, codec) ==
+  {ExtClasses[j] : j \in {j \in 1..Len(ExtClasses) : ExtClassHolds(ExtClasses[j], env1, env2, T1, T2, v, codec)}}
+
+\* characters XML 1.0 cannot carry (C02/C07: "characters representable in the target syntax")
+XmlLegalChar(ch) == ch \in {9, 10, 13} \/ (ch >= 32 /\ ch <= 55295) \/ (ch >= 57344 /\ ch <= 65533) \/ ch >= 65536
+XmlRepresentable(env, T, v) ==
+  ~AnyLeaf(env, T, v, LAMBDA t, x : t.k = "STR" /\ \E j \in 1..Len(x) : ~XmlLegalChar(x[j]))
 
 RtApplicable(env, T, v, codec) ==
   {RtClasses[j] : j \in {j \in 1..Len(RtClasses) : RtClassHolds(RtClasses[j], env, T, v, codec)}}
